@@ -1058,3 +1058,29 @@ Proof.
   - injection H as <-. reflexivity.
   - apply Hreg. exact H.
 Qed.
+
+(* ================================================================== one advance! of the lexer loop *)
+
+(* the induction step of the whole tokenizer: with `rest` the unread part of the source and the
+   location agreeing with the reference at its beginning, advance!(n) on a character boundary
+   does not panic and re-establishes the same situation for the new rest *)
+Lemma advance_keeps_invariant : forall pre rest st n,
+  valid_utf8 rest -> loc_ok (pre ++ rest) st -> l_byte st = length pre ->
+  n <= length rest -> is_char_boundary rest n = true ->
+  exists st' skipped rest',
+    advance st rest n = Some (st', skipped, rest') /\
+    rest = skipped ++ rest' /\ length skipped = n /\ valid_utf8 rest' /\
+    loc_ok (pre ++ rest) st' /\ l_byte st' = length (pre ++ skipped) /\
+    span_wf (pre ++ rest) (make_span st st').
+Proof.
+  intros pre rest st n Hv Hst Hb Hn Hbd.
+  destruct (advance_ok st rest n Hv Hn Hbd) as (st' & Ha & Hv1 & Hv2 & Hst').
+  exists st', (firstn n rest), (skipn n rest).
+  assert (Hsplit : rest = firstn n rest ++ skipn n rest) by (symmetry; apply firstn_skipn).
+  assert (Hlen : length (firstn n rest) = n) by (apply firstn_length_le; exact Hn).
+  split; [exact Ha|]. split; [exact Hsplit|]. split; [exact Hlen|]. split; [exact Hv2|].
+  pose proof (token_span_step pre (firstn n rest) (skipn n rest) st Hv1 Hv2) as Hstep.
+  cbn zeta in Hstep. rewrite <- Hsplit in Hstep. destruct (Hstep Hst Hb) as [H1 H2].
+  subst st'. split; [exact H1|]. split; [rewrite app_length; exact H2|].
+  apply make_span_wf; [exact Hst|exact H1|lia].
+Qed.
